@@ -198,4 +198,16 @@ CHECKS = {
         "level_note": "The reference implements the five selector kinds of the doc comment with the standard meaning; where a selector meets a value of the wrong kind only 'no panic' is asserted.",
         "assumptions": ["missing names and out-of-range indices select nothing"],
     },
+    "C19": {
+        "pkg": "c19", "variants": [PLAIN],
+        "rule": ("rapid draws a struct type (reflect.StructOf, 1-5 fields per level, depth <= 3; field kinds int, string, *int, pointer-receiver marshaler, context-aware marshaler, struct, *struct, []struct, [2]struct, "
+                 "map[string]struct, interface{} holding a struct), 1-5 queries over its field tree (subsets per level, sub-queries, duplicated and non-existent names) and a history of 2-12 encodings that interleaves the "
+                 "queries and the unfiltered encoding (every third query is rebuilt from its own QueryString and compared structurally). Oracle: reference projection of Marshal's own output (ordered AST) by a walk over "
+                 "(type, AST, query): selected members in struct order, sub-queries applied through pointers, interfaces, slices, arrays, maps and the context-aware marshaler; byte-equal to MarshalContext's output; the "
+                 "unfiltered encoding stays equal to Marshal. Non-trivial = some query has depth >= 2; distinct by hash of the whole case."),
+        "technique": "property-based testing against a reference projection (model) over generated types, queries and encode histories (rapid, shrinking)",
+        "level_text": "Randomised comparison with a reference model over types x queries x histories; exploration level.",
+        "level_note": "The reference projects go-json's own unfiltered output, so only the filtering is judged. reflect.StructOf types take the fallback cache path; each history starts with a cold query cache for its type.",
+        "assumptions": ["a root query without fields selects nothing; a sub-query without fields keeps the whole member"],
+    },
 }
